@@ -1,6 +1,7 @@
 package props
 
 import (
+	"context"
 	"fmt"
 	"net/http"
 	"net/url"
@@ -175,16 +176,23 @@ func (cw *codeWorld) redeem(step int, ch *kernel.Chooser) string {
 	ic.attempts++
 	r := w.PostForm("/oauth/token", form, creds)
 	desc := fmt.Sprintf("redeem code of %s by %s devs=%v replay=%v -> %d", owner, presentedClient, devs, hadSuccess, r.Status)
+	return cw.evalRedeem(step, desc, ic, form, creds, presentedClient, len(devs) > 0, hadSuccess, r)
+}
+
+// evalRedeem applies the C04 oracle to one answer of the token endpoint.
+func (cw *codeWorld) evalRedeem(step int, desc string, ic *issuedCode, form url.Values, creds world.Creds, presentedClient string, deviated, hadSuccess bool, r *world.Resp) string {
+	w := cw.w
+	owner := ic.ar.ClientID
 	if panicProbe(cw.o, r) || r.Err != nil {
 		return desc + " (no response)"
 	}
-	if len(devs) > 0 || hadSuccess {
+	if deviated || hadSuccess {
 		cw.o.Probe("adversarial-redeem")
 	}
 	tr, err := world.ParseTokenResponse(r.Body)
 	success := r.Status == 200 && err == nil && (tr.AccessToken != "" || tr.IDToken != "" || tr.RefreshToken != "")
 	if !success {
-		if len(devs) == 0 && !hadSuccess {
+		if !deviated && !hadSuccess {
 			cw.o.Probe("honest-redeem-refused")
 			cw.o.Logf("  honest redeem refused: %d %s", r.Status, r.Body)
 		}
@@ -196,7 +204,7 @@ func (cw *codeWorld) redeem(step int, ch *kernel.Chooser) string {
 	}
 	ic.successes++
 	cw.o.Probe("redeem-success")
-	if len(devs) == 0 && !hadSuccess {
+	if !deviated && !hadSuccess {
 		cw.o.Probe("honest-redeem-success")
 	}
 	// --- oracle: success implies every precondition of the statement ---
@@ -278,6 +286,87 @@ func (cw *codeWorld) redeem(step int, ch *kernel.Chooser) string {
 	return desc + " TOKENS"
 }
 
+type pairTaskKey struct{}
+
+// concurrentRedeem lets two requests redeem one code at the same time; the seeded scheduler interleaves them at
+// every storage call. Every rule of the sequential oracle applies to both answers; two overlapping successes are
+// counted as a probe only (the statement speaks of redemption "after a successful exchange").
+func (cw *codeWorld) concurrentRedeem(step int, ch *kernel.Chooser) string {
+	if len(cw.codes) == 0 {
+		return "concurrent redeem: no code"
+	}
+	w := cw.w
+	ic := cw.codes[ch.Int(len(cw.codes))]
+	owner := ic.ar.ClientID
+	hadSuccess := ic.successes > 0
+	sched := kernel.NewSched(w.Tape, fmt.Sprintf("pair:%d", step), 300)
+	w.Store.OnCall = func(ctx context.Context, method string) {
+		if name, ok := ctx.Value(pairTaskKey{}).(string); ok {
+			sched.Park(name, "store."+method, nil)
+		}
+	}
+	defer func() { w.Store.OnCall = nil }()
+	type side struct {
+		client string
+		creds  world.Creds
+		form   url.Values
+		resp   *world.Resp
+	}
+	sides := make([]*side, 2)
+	for i := range sides {
+		sd := &side{client: owner}
+		if i == 1 && ch.Bool(1, 3) {
+			others := slices.DeleteFunc(w.SortedClients(), func(s string) bool { return s == owner })
+			sd.client = others[ch.Int(len(others))]
+		}
+		sd.creds = w.RightCreds(sd.client)
+		sd.form = url.Values{"grant_type": {"authorization_code"}, "code": {ic.code}, "redirect_uri": {ic.ar.RedirectURI}}
+		if ic.ar.Challenge != nil {
+			sd.form.Set("code_verifier", ic.verifier)
+		}
+		sides[i] = sd
+		name := fmt.Sprintf("t%d", i)
+		go func() {
+			if sched.Park(name, "start", nil) != "go" {
+				return
+			}
+			sd.resp = w.PostFormCtx(context.WithValue(context.Background(), pairTaskKey{}, name), "/oauth/token", sd.form, sd.creds)
+		}()
+	}
+	err := sched.Run(func(draining bool) []kernel.Event {
+		var evs []kernel.Event
+		for _, p := range sched.ParkedTasks() {
+			p := p
+			evs = append(evs, kernel.Event{Name: "wake:" + p.Task + "@" + p.Point, Drain: true, Apply: func() { sched.Release(p.Task, "go") }})
+		}
+		return evs
+	}, nil)
+	if err != nil {
+		cw.o.Infra = err.Error()
+	}
+	cw.o.Probe("concurrent-pairs")
+	ic.attempts += 2
+	succ := 0
+	out := fmt.Sprintf("concurrent redeem code of %s by %s and %s (%d scheduler steps):", owner, sides[0].client, sides[1].client, sched.Step)
+	for i, sd := range sides {
+		if sd.resp == nil {
+			continue
+		}
+		desc := fmt.Sprintf("concurrent redeem #%d code of %s by %s replay=%v -> %d", i, owner, sd.client, hadSuccess, sd.resp.Status)
+		before := ic.successes
+		cw.evalRedeem(step, desc, ic, sd.form, sd.creds, sd.client, sd.client != owner, hadSuccess, sd.resp)
+		if ic.successes > before {
+			succ++
+		}
+		out += fmt.Sprintf(" #%d=%d", i, sd.resp.Status)
+	}
+	if succ == 2 {
+		cw.o.Probe("overlapping-double-redemption")
+	}
+	cw.o.Trace = append(cw.o.Trace, strings.Join(sched.Trace, ","))
+	return out
+}
+
 func RunC04(t *testing.T, spec kernel.Spec) *kernel.Outcome {
 	return inBubble(t, spec, func(o *kernel.Outcome, tape *kernel.Tape) {
 		w, err := world.NewStd(o, tape, world.StdOptions{Router: spec.Params["router"]})
@@ -290,13 +379,15 @@ func RunC04(t *testing.T, spec kernel.Spec) *kernel.Outcome {
 		n := 30 + tape.Sub("cfg").Int(40)
 		clients := w.SortedClients()
 		steps(o, tape, n, func(i int, ch *kernel.Chooser) string {
-			switch x := ch.Int(10); {
+			switch x := ch.Int(11); {
 			case x < 3:
 				return cw.startAuth(ch, clients[ch.Int(len(clients))])
 			case x < 6:
 				return cw.login(ch)
-			default:
+			case x < 10:
 				return cw.redeem(i, ch)
+			default:
+				return cw.concurrentRedeem(i, ch)
 			}
 		})
 		o.Nontrivial = o.Probes["honest-redeem-success"] > 0 && o.Probes["adversarial-redeem"] > 0
